@@ -1,5 +1,7 @@
 #include "../include/InputFunctions/DomainGeometry/czarnyGeometry.h"
 
+#include <stdexcept>
+
 CzarnyGeometry::CzarnyGeometry()
 {
     initializeGeometry();
@@ -16,5 +18,9 @@ CzarnyGeometry::CzarnyGeometry(const double& Rmax, const double& inverse_aspect_
 
 void CzarnyGeometry::initializeGeometry()
 {
+    /* The mapping divides by epsilon and by sqrt(1 - epsilon^2 / 4). */
+    if (!(inverse_aspect_ratio_epsilon != 0.0 && inverse_aspect_ratio_epsilon * inverse_aspect_ratio_epsilon < 4.0)) {
+        throw std::invalid_argument("CzarnyGeometry requires an inverse aspect ratio epsilon with 0 < |epsilon| < 2.");
+    }
     factor_xi = 1.0 / sqrt(1.0 - inverse_aspect_ratio_epsilon * inverse_aspect_ratio_epsilon / 4.0);
 }
